@@ -70,7 +70,9 @@ pub fn oracle(b: [u8; 4]) -> Option<String> {
             if v.to_string() != CARS[i] { return Some(format!("printed name {} differs from wire name {}", v, CARS[i])); }
             if v.is_mod() { return Some(format!("built-in {} reports is_mod", CARS[i])); }
         }
-        if let R::M(_) = r { if !v.is_mod() { return Some(format!("mod {} reports !is_mod", hex(&b))); } }
+        if let R::M(_) = r { if !v.is_mod() { return Some(format!("mod {} reports !is_mod", hex(&b))); } if v.is_builtin() { return Some(format!("mod {} reports is_builtin", hex(&b))); } }
+        if let R::B(i) = r { if !v.is_builtin() { return Some(format!("built-in {} reports !is_builtin", CARS[i])); } }
+        if let R::U = r { if v.is_mod() { return Some("the unknown vehicle (all zeros) reports is_mod".into()); } }
     }
     None
 }
@@ -127,6 +129,18 @@ pub fn packet_sweep(prop: &str, a: &Args, st: &mut Stats) {
                 d => st.fail(format!("[{prop}] IS_MAL listing mod ids {} is not decoded: {}", ids.iter().map(|b| hex(b)).collect::<Vec<_>>().join(" "), crate::wire::cls_string(&d)), id.clone()),
             }
         } }
+        // the typed IS_MAL API takes mods only: a vehicle that is not a mod (every built-in, the unknown vehicle) is refused - or, if a future version
+        // accepted it, the packet must still encode - it never becomes a packet the encoder aborts on
+        for v in [[0u8; 4], *b"XFG\0", *b"BF1\0", *b"FZ5\0"].iter().filter_map(|b| read(*b).1) { for compressed in [true, false] {
+            st.evaluations += 1;
+            let id = format!("malinsert {} {}", if compressed { "C" } else { "U" }, v);
+            let mut m = insim::insim::Mal::default();
+            match crate::common::guard(|| m.insert(v.clone())) {
+                None => st.fail(format!("[{prop}] Mal::insert({v:?}) panics"), id.clone()),
+                Some(Err(_)) => {},
+                Some(Ok(_)) => match encode_p(compressed, &insim::Packet::Mal(m.clone())) { Enc::Ok(_) | Enc::Err => {}, Enc::Panic => st.fail(format!("[{prop}] Mal::insert accepts {v:?}, which is not a mod, and the encoder then aborts on the packet"), id.clone()) },
+            }
+        } }
     }
 }
 
@@ -162,6 +176,7 @@ pub fn run(a: &Args) {
         if seen.insert(b) && (shape(b) || b == [0; 4] || b[3] == 0) { nontrivial += 1; }
         if corr {
             out.case(&format!("vread {}", hex(&b)), &r.show());
+            out.case(&format!("vcls {}", hex(&b)), &v.as_ref().map(|v| format!("mod={} builtin={}", v.is_mod() as u8, v.is_builtin() as u8)).unwrap_or("E".into()));
             if let Some(v) = v {
                 let c = match r { R::U => "vwrite U".to_string(), R::B(i) => format!("vwrite B {i}"), R::M(m) => format!("vwrite M {m}"), _ => return };
                 out.case(&c, &write(&v).map(|w| hex(&w)).unwrap_or("P".into()));
